@@ -213,10 +213,17 @@ def _apply_adt_renames(d, base):
 def _apply_fn_renames(d, base):
     strs = d["strs"]
 
+    import re as _re2
+    _gp = _re2.compile(r"(?:impl [\w:<>, ']+?|[A-Za-z_]\w*)/#(\d+)")
+
+    def gnorm(t):
+        return _gp.sub(r"G#\1", t) if isinstance(t, str) else t          # `impl Trait/#0` and `T/#0` are the same generic parameter
+
     def sig(b):
-        ins = [strs[i] if isinstance(i, int) else i for i in b.get("inputs", [])]
+        ins = [gnorm(strs[i] if isinstance(i, int) else i) for i in b.get("inputs", [])]
         out = b.get("output")
-        return ins, (strs[out] if isinstance(out, int) else out)
+        return ins, gnorm(strs[out] if isinstance(out, int) else out)
+    base = {p_: dict(r_, inputs=[gnorm(x) for x in r_["inputs"]], output=gnorm(r_["output"])) for p_, r_ in base.items()}
     cur = {b["path"]: b for b in d["bodies"] if b.get("dk") in ("Fn", "AssocFn")}
     missing = [p for p, r in base.items() if p not in cur and not r["pub"]]
     new = [p for p, b in cur.items() if p not in base and not b.get("pub")]
@@ -255,6 +262,20 @@ def _apply_fn_renames(d, base):
         rivals = [m2 for m2 in left_m if m2 != m and m2.rsplit("::", 1)[1] == leaf]
         if len(hits) == 1 and not rivals:
             pairs[hits[0]] = m
+    # .. moved AND renamed: the one missing and the one new private function of the crate that have this very signature
+    left_m = [m for m in missing if m not in pairs.values()]
+    left_n = [n for n in new if n not in pairs]
+    for m in left_m:
+        want = (base[m]["inputs"], base[m]["output"])
+        hits = [n for n in left_n if sig(cur[n]) == want]
+        rivals = [m2 for m2 in left_m if m2 != m and (base[m2]["inputs"], base[m2]["output"]) == want]
+        if len(hits) == 1 and not rivals and want[0]:
+            callers = set()
+            for b in d["bodies"]:
+                if "body" in b and _mentions_callee(b["body"], hits[0]):
+                    callers.add(b["path"])
+            if any(c == r or c.startswith(r + "::") or r.startswith(c + "::") for c in callers for r in base[m]["callers"]):
+                pairs[hits[0]] = m
     if not pairs:
         return {}
     _rewrite_strings(d, pairs)
@@ -303,12 +324,16 @@ def inline_extracted_helpers(crate):
             args = ([call["recv"]] + call["args"]) if call["k"] == "MethodCall" else call["args"]
             if len(params) != len(args) or any(p_.get("k") != "Bind" for p_ in params):
                 continue
-            leaves_early = False
+            leaves_early = uses_try = False
             for n in walk(H["body"], into_closures=False):
-                if n.get("k") == "Ret" or (n.get("k") == "Match" and str(n.get("src", "")).startswith("TryDesugar")):
+                if n.get("k") == "Ret":
                     leaves_early = True
+                elif n.get("k") == "Match" and str(n.get("src", "")).startswith("TryDesugar"):
+                    uses_try = True
             if leaves_early:
                 continue
+            if uses_try and not _tried_at_call_site(F, H, call):
+                continue        # a `?` inside the helper is the caller's `?` only if the call itself is `?`-ed at once, with the same error type
             off = 1000000 * (len(done) + 1)
             for n in _all_nodes(H["body"]) + _all_nodes(params):
                 if (n.get("k") == "Bind" or (n.get("k") == "Path" and n.get("r") == "local")) and isinstance(n.get("id"), int):
@@ -357,12 +382,64 @@ def inline_extracted_helpers(crate):
     return done
 
 
+def _try_operand(e):
+    """X of `X?` (the desugared match on Try::branch(X)), else None"""
+    if isinstance(e, dict) and e.get("k") == "Match" and str(e.get("src", "")).startswith("TryDesugar"):
+        sc = strip(e["scrut"])
+        if sc.get("k") == "Call" and str(sc.get("callee", "")).endswith("Try::branch") and len(sc.get("args", [])) == 1:
+            return sc["args"][0]
+    return None
+
+
+def _tried_at_call_site(F, H, call):
+    """the call is the operand of a `?` of F itself (not of a closure in F), and helper and caller fail with the same type"""
+    def err_ty(t):
+        t = str(t or "")
+        if t.startswith(("std::option::Option<", "core::option::Option<")):
+            return "Option"
+        if t.startswith(("std::result::Result<", "core::result::Result<")):
+            depth, last = 0, None
+            for i, ch in enumerate(t):
+                if ch in "<([":
+                    depth += 1
+                elif ch in ">)]":
+                    depth -= 1
+                elif ch == "," and depth == 1:
+                    last = i
+            return t[last + 1:-1].strip() if last else None
+        return None
+    if err_ty(H.get("output")) is None or err_ty(H.get("output")) != err_ty(F.get("output")):
+        return False
+    found = [False]
+
+    def rec(n, in_closure):
+        if isinstance(n, dict):
+            if n.get("k") == "Closure":
+                in_closure = True
+            op = _try_operand(n)
+            if op is not None and strip(op) is call and not in_closure:
+                found[0] = True
+            for v in n.values():
+                if isinstance(v, (dict, list)):
+                    rec(v, in_closure)
+        elif isinstance(n, list):
+            for v in n:
+                rec(v, in_closure)
+    rec(F["body"], False)
+    return found[0]
+
+
 def _statement_evaluating_first(root, call):
     """(block, index) of the statement of which `call` is the first thing evaluated: the init of a `let`, the iterated expression of a `for`
     statement, or the whole expression statement; None otherwise"""
     def same(e):
-        while isinstance(e, dict) and e is not call and e.get("k") in ("DropTemps", "Use", "AddrOf"):
-            e = e["e"]
+        while isinstance(e, dict) and e is not call:
+            if e.get("k") in ("DropTemps", "Use", "AddrOf"):
+                e = e["e"]
+            elif _try_operand(e) is not None:
+                e = _try_operand(e)          # `h(..)?`
+            else:
+                break
         return e is call
     for blk in _all_nodes(root):
         if blk.get("k") is not None or "stmts" not in blk:
